@@ -18,7 +18,7 @@ class Job:
 
 
 def load_known():
-    p = os.path.join(VERIF, 'known_findings.json')
+    p = os.environ.get('VERIF_KNOWN') or os.path.join(VERIF, 'known_findings.json')
     try: return json.load(open(p))
     except Exception: return {'findings': [], 'fixed': []}
 
